@@ -206,7 +206,7 @@ def _count_is(flags, j, W):
         else syms[0] == (j - conc)
 
 
-def _projection_ok(records, tables):
+def _projection_ok(records, tables, numbers_only=False):
     """records: [(id, protocol int/term, supported bool/term)];
     tables: the seven derived tables after initglobals.  z3 Bool.
     Concrete sub-terms are folded in Python so that the 369 real records
@@ -287,6 +287,17 @@ def _projection_ok(records, tables):
         return _A(*conds)
 
     recs = [(vid, p, _B(s)) for vid, p, s in records]
+    if numbers_only:
+        # records that repeat an id: the id-keyed tables cannot hold both,
+        # so only the tables that do not go through an id are claimed
+        conds = [dedupe_ok([(True, p) for vid, p, s in recs], known_pv)]
+        idx_items = list(indices.items())
+        conds.append(len(idx_items) == len(known_pv))
+        for j, p in enumerate(known_pv):
+            if j < len(idx_items):
+                k, v = idx_items[j]
+                conds.append(_A(_Eq(k, p), _Eq(v, j)))
+        return _Z(_A(*conds))
     # the name tables are keyed by id: a verbatim repetition of a concrete
     # record (the real list repeats '14w29a') contributes nothing
     seen, uniq = {}, []
@@ -445,9 +456,74 @@ def initglobals(ctx, n_init=3, n_ext=1, real_base=False, sentinel=False,
     return z3.And(ok1, idem, ok3, idem2, live_ok)
 
 
+def repeated_ids(ctx, n=3):
+    """records whose ids are NOT all different (a run-time extension that
+    re-uses an id with another protocol number): the known protocol numbers
+    and the index map are still the order-preserving duplicate-free
+    projection of the records' protocol fields, before and after the
+    extension, and comparisons follow it"""
+    import minecraft as m
+    import minecraft.utility as U
+    from minecraft.networking.connection import ConnectionContext as CC
+    Version = m.Version
+    saved_records = list(m.KNOWN_MINECRAFT_VERSION_RECORDS)
+    saved_idx = m.PROTOCOL_VERSION_INDICES
+    recs = []
+    for i in range(n):
+        k = 0 if i == 0 else concretize(ctx.int('id%d' % i, 0, min(i, 1)))
+        p = ctx.int('p%d' % i, 0, (1 << 31) - 1)
+        recs.append((NAMES[k], p, ctx.bool('s%d' % i)))
+    conds = []
+    try:
+        if ctx.mode == 'sym':
+            m.PROTOCOL_VERSION_INDICES = AList()
+            saved_u = U.PROTOCOL_VERSION_INDICES
+            U.PROTOCOL_VERSION_INDICES = m.PROTOCOL_VERSION_INDICES
+        R = m.KNOWN_MINECRAFT_VERSION_RECORDS
+        R[:] = [Version(*r) for r in recs[:n - 1]]
+        m.initglobals(use_known_records=True)
+        conds.append(_projection_ok(recs[:n - 1], _snapshot(m), True))
+        R.append(Version(*recs[-1]))
+        m.initglobals(use_known_records=True)
+        t = _snapshot(m)
+        conds.append(_projection_ok(recs, t, True))
+        kp = t[3]
+
+        def pos(v):
+            out = z3.BitVecVal(-1, ctx.W)
+            for j in reversed(range(len(kp))):
+                out = z3.If(E(kp[j]) == E(v), z3.BitVecVal(j, ctx.W), out)
+            return out
+        for i in range(n):
+            c_ = CC(protocol_version=recs[i][1])
+            for j in range(n):
+                o = recs[j][1]
+                try:
+                    conds += [
+                        EB(c_.protocol_earlier(o)) ==
+                        z3.ULT(pos(recs[i][1]), pos(o)),
+                        EB(c_.protocol_later_eq(o)) ==
+                        z3.UGE(pos(recs[i][1]), pos(o))]
+                except KeyError:
+                    conds.append(z3.BoolVal(False))
+    finally:
+        if ctx.mode == 'sym':
+            try:
+                U.PROTOCOL_VERSION_INDICES = saved_u
+            except NameError:
+                pass
+        m.PROTOCOL_VERSION_INDICES = saved_idx
+        m.KNOWN_MINECRAFT_VERSION_RECORDS[:] = saved_records
+        m.initglobals(use_known_records=True)
+    note_key(ctx, 'C08:repeated_ids')
+    return z3.And(*conds)
+
+
 def instances(tier, seed):
     out = [
         Instance('order', 'order', {}, W=40, budget_s=600),
+        Instance('repeated_ids:3', 'repeated_ids', {'n': 3}, W=40,
+                 budget_s=600, witness_every=7),
         Instance('initglobals:3+1', 'initglobals', {'n_init': 3, 'n_ext': 1},
                  W=40, budget_s=900, witness_every=7),
         Instance('initglobals:1+2:front', 'initglobals',
